@@ -60,6 +60,55 @@ def main():
             print("extract_consts: regex of %s not found" % var)
             return 1
         items.append("def %s : List Nat := [%s]" % (lean, ", ".join(str(ord(c)) for c in m.group(1))))
+    # --- constants the hand-written models contain as literals; `FluentProofs/ConstTie.lean` proves the
+    # literals equal to these extracted values, so a changed source constant breaks a proof obligation
+    def need(m, what):
+        if not m:
+            print("extract_consts: %s not found" % what)
+            raise SystemExit(1)
+        return m
+
+    def byte_list(txt):
+        """b'x' literals in a Rust expression -> byte values"""
+        out = []
+        for c in re.findall(r"b'(\\.|[^'\\])'", txt):
+            out.append(ord({"\\n": "\n", "\\r": "\r", "\\t": "\t", "\\\\": "\\", "\\'": "'"}.get(c, c[-1])))
+        return out
+
+    src = read("fluent-bundle/src/resolver/pattern.rs")
+    marks = re.findall(r"write_char\('\\u\{([0-9a-fA-F]+)\}'\)", src)
+    if len(marks) != 2:
+        print("extract_consts: FSI/PDI write_char sites not found")
+        return 1
+    items.append("def fsiCodePoint : Nat := 0x%s" % marks[0].upper())
+    items.append("def pdiCodePoint : Nat := 0x%s" % marks[1].upper())
+    src = read("fluent-bundle/src/types/mod.rs")
+    kws = re.findall(r'"([a-z]+)"\s*=>\s*PluralCategory::([A-Z]+)', src)
+    if len(kws) != 6:
+        print("extract_consts: plural keywords not found")
+        return 1
+    items.append("def pluralKeywords : List (String × String) := [%s]" % ", ".join('("%s", "%s")' % (k, c.lower()) for k, c in kws))
+    src = read("fluent-syntax/src/parser/slice.rs")
+    m = need(re.search(r"fn matches_fluent_ws\(c: char\) -> bool \{\s*([^}]*)\}", src), "matches_fluent_ws")
+    ws = [ord({"\\n": "\n", "\\r": "\r"}.get(c, c)) for c in re.findall(r"c == '(\\.|.)'", m.group(1))]
+    items.append("def fluentWs : List Nat := [%s]" % ", ".join(map(str, ws)))
+    src = read("fluent-syntax/src/parser/helper.rs")
+    m = need(re.search(r"fn is_byte_pattern_continuation\(b: u8\) -> bool \{\s*!matches!\(b,([^)]*)\)", src), "is_byte_pattern_continuation")
+    items.append("def patternBreakBytes : List Nat := [%s]" % ", ".join(map(str, byte_list(m.group(1)))))
+    m = need(re.search(r"new_line && \(b\.is_ascii_alphabetic\(\) \|\| \[([^\]]*)\]\.contains\(b\)\)", src), "entry start bytes")
+    items.append("def entryStartBytes : List Nat := [%s]" % ", ".join(map(str, byte_list(m.group(1)))))
+    src = read("fluent-bundle/src/types/number.rs")
+    opts = re.findall(r'\("([A-Za-z]+)", FluentValue::(String|Number)\(n\)\)', src)
+    if len(opts) != 10:
+        print("extract_consts: NUMBER option names not found (%d)" % len(opts))
+        return 1
+    items.append("def numberOptions : List (String × String) := [%s]" % ", ".join('("%s", "%s")' % (k, t) for k, t in opts))
+    src = read("fluent-resmgr/src/resource_manager.rs")
+    ph = re.findall(r'\.replace\("(\{[a-z_]+\})",', src)
+    if len(ph) != 2:
+        print("extract_consts: path placeholders not found")
+        return 1
+    items.append("def pathPlaceholders : List String := [%s]" % ", ".join('"%s"' % x for x in ph))
     body ="/-! GENERATED by tools/extract_consts.py from /repo source - do not edit. -/\nnamespace FluentModel.Generated\n\n" + \
         "\n\n".join(items) + "\n\nend FluentModel.Generated\n"
     old = open(OUT, encoding="utf-8").read() if os.path.exists(OUT) else None
